@@ -247,7 +247,12 @@ impl Engine for WrapSim {
             let a = if !special.is_empty() && rng.chance(1, 4) { *rng.pick(&special) } else { *rng.pick(&world.universe) };
             let op = match rng.below(18) {
                 0 | 1 | 2 => Q::Basic(a),
-                3 | 4 => Q::Code(*rng.pick(&world.contracts)),
+                3 | 4 => Q::Code(match rng.below(4) {
+                    0 => *rng.pick(&world.eoas),
+                    // (addresses a transaction may have created a contract at)
+                    1 => a,
+                    _ => *rng.pick(&world.contracts),
+                }),
                 5 | 6 | 7 => Q::Storage(if rng.chance(1, 3) { a } else { *rng.pick(&world.contracts) }, *rng.pick(&world.slots)),
                 8 | 9 | 10 => {
                     // around the 256-block window, far past, the future
@@ -266,8 +271,9 @@ impl Engine for WrapSim {
                 11 | 12 => Q::HasStorage(a),
                 13 => {
                     if !matches!(stack, WStack::Components | WStack::CacheOverComponents) {
-                        let mut tx = gen_tx(rng, &world);
-                        tx.auth_list = None;
+                        // (EIP-7702 authorization lists included: a delegation sets code on an
+                        // existing account without creating it)
+                        let tx = gen_tx(rng, &world);
                         ops.push(WOp::Tx(tx));
                     }
                     continue;
